@@ -2,7 +2,8 @@ SPECIFICATION Spec
 CONSTANTS
   Depth = 2
   DeepIds = {1}
-  BaseIds = {1, 2, 3, 4}
+  BaseIds = {1, 2, 3, 4, 5}
+  BigQuorums = {256}
   QuorumLowerBound = TRUE
   EmitScenarios = TRUE
 INVARIANTS CodeSound RuleConsistent CodeComplete Emit
